@@ -1149,6 +1149,151 @@ CONFIG["C03"] = dict(
     assumptions=_CLIENT_ASSUME,
 )
 
+# ------------------------------------------------------------------- C07 / C09 / C06
+# responder side of the daemon: single-daemon histories predicted exactly by
+# lean/Mdns/Model/Responder.lean (harness/src/c07.rs, lean/Mdns/Driver/SimResponder.lean)
+
+_RESP_MODEL = "Mdns/Model/Responder.lean (+ Model/Decode, Compare, Names, Intf, Txt), Driver/SimResponder.lean"
+_RESP_TRUST = ("Trusted: Lean kernel; allowed axioms only; hand model tied to the code by differential comparison of whole "
+               "histories on real daemon threads under the simulation seams (virtual clock, simulated interfaces, captured "
+               "egress, injected ingress, per-iteration gate, fixed jitter); per loop iteration the multiset of packets "
+               "(interface, family, destination, id, flags, sorted questions, per section the sorted records with class, "
+               "cache-flush bit, raw TTL and RDATA in exact letter case, the real bytes decoded by the Lean wire decoder), the "
+               "multiset of monitor events / unregister replies / shutdown reply and the requested wake-up are compared. ")
+_RESP_ASSUME = [
+    "one `now` per loop iteration; both sockets (IPv4, IPv6) exist; no socket error; every message fits one datagram",
+    "to_lowercase is ASCII lower-casing (non-ASCII upper-case letters are outside the modelled domain)",
+    "no conflicting RESPONSE in the invariant theorems (conflict_handler is modelled and compared, but renames are excluded "
+    "from the StatusSound invariant); injected responses carry a PTR answer (otherwise the daemon caches them: cache part "
+    "of the daemon is the client model's)",
+    "hash order: records inside a section, packets and events inside one iteration are compared as multisets; the name in "
+    "an Announce(name, host:intf) event is compared lower-cased; histories with competing probe queries (tiebreaking) have "
+    "no two records of one type in a probe (the insert position of Probe::insert_record among equal keys is an unspecified "
+    "binary_search result)",
+    "event receivers stay alive; the interface table is constant (no interface changes, addr_auto only at registration)",
+]
+
+
+def _resp_extra(recs):
+    d = _sim_extra(recs)
+    d.update(
+        announce_events=sum(r["impl"].count(" announce ") for r in recs),
+        namechange_events=sum(r["impl"].count(" namechange ") for r in recs),
+        respond_events=sum(r["impl"].count(" respond ") for r in recs),
+        unregister_ok=sum(r["impl"].count(" unreg ok") for r in recs),
+        unregister_notfound=sum(r["impl"].count(" unreg notfound") for r in recs),
+        datagrams_injected=sum(r["impl"].count(" rx ") + (1 if r["impl"].startswith("rx ") else 0) for r in recs),
+        unicast_replies=len([1 for r in recs for it in r["impl"].split(" ; ")
+                             if it.startswith("tx ") and it.split(" ")[4] != "m"]),
+        packets_ipv6=len([1 for r in recs for it in r["impl"].split(" ; ") if it.startswith("tx ") and it.split(" ")[3] == "0"]),
+        histories_two_interfaces=sum(1 for r in recs if " 3 192.168.2.10 24" in r["op"]),
+        daemon_shutdowns=sum(r["impl"].count(" status shutdown") for r in recs),
+    )
+    return d
+
+
+CONFIG["C07"] = dict(
+    modules=["Mdns.Props.C07"],
+    model_files=_RESP_MODEL,
+    nontrivial=lambda r: " announce " in r["impl"] and " tx " in r["impl"],
+    extra_evidence=_resp_extra,
+    gen_timeout=3000,
+    rule="histories of ONE real daemon thread under the simulation seams, from VERIF_SEED (harness/src/c07.rs): (a) the life "
+         "cycle of a registration under each start jitter (quick: 0,7,14,..,245 and 1,248,249; thorough: every value 0..249) "
+         "followed by 1-3 more actions; (b) mixed histories: 1-3 services (with/without subtype, requires_probe on/off, "
+         "shared host names, same name in another letter case, escaped dots, UTF-8, 1-6 addresses in/off the subnets, "
+         "addr_auto), re-registration with changed port/TXT/address/case/host, unregister, injected queries, competing probe "
+         "queries (tiebreaking), conflicting responses (renames), a clock that jumps (late iterations), shutdown - on one "
+         "IPv4 interface, a dual-stack interface, two interfaces on different subnets, at pauses of 0,1,60,119..121,249..251,"
+         "499..501,749..751,999..1001,1749..1751 ms and longer. Non-trivial = at least one packet and one Announce event. "
+         "Distinct = distinct scripts.",
+    level_text="On the responder model (exact on these histories: every packet with time, interface, family and full content, "
+               "every monitor event and the requested wake-up are compared with the real daemon on every run) - Lean theorems: "
+               "for ANY history of loop iterations without a conflicting response, a service that requires probing is "
+               "Announced on an interface only if all its unique records (SRV, TXT, addresses of a family) are active there "
+               "(announced_records_active, an invariant proved through every phase of the loop); records become active only "
+               "through a probe at least 750 ms old; an announcement is built only from active records and carries PTR, subtype "
+               "PTR, SRV, TXT, addresses as answers; nothing is answered for services that are not Announced; under a timely "
+               "scheduler a probe sends at exactly T, T+250, T+500 and ends at T+750 whatever else happens in between "
+               "(probe_timeline), each query asking ANY for the name with all the probe's records as authorities; after "
+               "prepare_announce every unique record is active or in the probe of its name; a new probe starts at now+jitter; "
+               "and the complete life cycle (three probes, nothing before, announcements at +750 and +1750 with the stated "
+               "content) by kernel evaluation of the model for EVERY jitter 0..249 on a concrete registration and for a spread "
+               "of jitters on a dual-stack interface with a mixed-case name and a subtype.",
+    level_note=_RESP_TRUST + "The general life-cycle statement (every service, interface, start time) is kept as "
+               "`probe_lifecycle_full : Prop`; proved are its general building blocks and the exhaustive-jitter instances.",
+    partial=["probe_lifecycle_full (arbitrary service data, interface and start time) is not proved as one theorem; proved: "
+             "probe_timeline, probe_query_content, registration_probes_every_record, registration_probe_times, "
+             "probe_end_activates_records, announcement_needs_active, announced_records_active and the evaluated instances (probe_lifecycle_partial); missing: their composition through iter for a symbolic service",
+             "the history invariant 'an active record was in the authority section of three probe queries 250 ms apart' is "
+             "false of the code without a timely scheduler and for shared probes (findings D31, D33, D34): proved instead is "
+             "active_only_after_probe (the probe is at least 750 ms old)",
+             "bounded time to the announced state is shown on the evaluated life cycles only (t0 + jitter + 750 ms)"],
+    assumptions=_RESP_ASSUME,
+)
+
+CONFIG["C09"] = dict(
+    modules=["Mdns.Props.C09"],
+    model_files=_RESP_MODEL,
+    nontrivial=lambda r: " unreg " in r["impl"] or " status shutdown" in r["impl"],
+    extra_evidence=_resp_extra,
+    gen_timeout=3000,
+    rule="histories of ONE real daemon thread (harness/src/c07.rs, generate_c09): register / re-register / unregister (exact, "
+         "upper-case, lower-case, unknown names) / shutdown sequences over 1-3 services on 1-2 interfaces and both families, "
+         "unregister before, during and after probing and between the two announcements, at pauses around 120, 250, 750, "
+         "1000 ms; queries after the unregister; occasionally conflicting responses. Non-trivial = at least one unregister "
+         "reply or a shutdown. Distinct = distinct scripts.",
+    level_text="On the responder model (exact on these histories, compared with the real daemon every run) - Lean theorems: "
+               "unregister answers OK exactly when the lower-cased name is registered, NotFound (and nothing else) otherwise; "
+               "on OK exactly one goodbye packet per interface and family in which the service has an in-subnet address: PTR, "
+               "subtype PTR, SRV, TXT, those addresses, every record TTL 0, id 0; each packet queued once more for +120 ms with "
+               "the same content and a timer armed; the repeat sends the very same packet; shutdown does the same for every "
+               "service and forgets everything; afterwards the name is not registered, other services are untouched, the "
+               "queued second announcement is a no-op and queries are answered from the remaining services only. The "
+               "statement's 'only where the service was announced' is FALSE of the code: goodbye_while_probing proves the "
+               "negation on a witness (finding D30, also executed on the real code from corpus/C09).",
+    level_note=_RESP_TRUST + "The goodbye always carries the names as registered; after a rename by conflict resolution that "
+               "is the wrong name (D21, recorded under C08).",
+    partial=["goodbye_contract_full ('a goodbye only where the service is Announced') is false of the code (D30); proved is "
+             "goodbye_contract / goodbye_contract_partial: one packet per interface and family with an in-subnet address, "
+             "whatever the status",
+             "'under the names most recently announced' is not claimed (original names are used, D21)"],
+    assumptions=_RESP_ASSUME,
+)
+
+CONFIG["C06"] = dict(
+    modules=["Mdns.Props.C06"],
+    model_files=_RESP_MODEL,
+    nontrivial=lambda r: " respond " in r["impl"],
+    extra_evidence=_resp_extra,
+    gen_timeout=3000,
+    rule="histories of ONE real daemon thread (harness/src/c07.rs, generate_c06): 3-10 actions, mostly injected queries built "
+         "with the crate's encoder (1-3 questions: type PTR in exact/other case, subtype PTR, the _services._dns-sd._udp meta "
+         "query, SRV/TXT/ANY/A/AAAA/PTR/NSEC on the instance name in four letter cases, A/AAAA/ANY/SRV/TXT/PTR on the host name "
+         "in four letter cases, names nobody registered; known answers = the service's own records with TTL 0,1,half-1,half,"
+         "half+1,full, cache-flush bit set or clear, owner in other letter case; query id 0 or random; source port 5353, 5354, "
+         "40000, 53; source inside/outside the subnet; over IPv4 and IPv6; several datagrams in one iteration) before, during "
+         "and after probing, after unregister and re-registration. Non-trivial = at least one response sent. Distinct = "
+         "distinct scripts.",
+    level_text="On the responder model (exact on these histories: every response packet with destination, id, flags, echoed "
+               "questions and every record of every section with TTL and cache-flush bit is compared with the real daemon "
+               "every run) - Lean theorems: handle_query (a loop over questions and services with accumulating state, as in the "
+               "code) EQUALS the declarative rule written from the statement (handleQuery_spec): per question and announced "
+               "service the type/subtype/meta PTR, SRV/TXT/ANY on the instance name, A/AAAA/ANY on the host name (names "
+               "compared lower-cased), minus the records suppressed by a known answer, PTR answers bringing subtype PTR, SRV, "
+               "TXT and the addresses of the querier's family as additionals; nothing for services that are not announced, "
+               "not registered or without an address on the link; every record of every response has TTL 4500/120 and the "
+               "cache-flush bit as stated and addresses only inside the receiving interface's subnet (response_records); "
+               "the data is that of the most recent register call; a query from another port than 5353 gets one unicast "
+               "packet to its sender with its id and questions echoed and every cache-flush bit clear (legacy_unicast), a "
+               "query from 5353 one multicast packet with id 0 (multicast_reply).",
+    level_note=_RESP_TRUST + "Readings: 'no address on that link' per family of the transport for PTR/SRV/TXT and per question "
+               "type for host questions; an address record appears once per service sharing the host name (list, not set); "
+               "the type name of a PTR question is compared exactly; SRV/TXT answers carry the owner name as asked and the "
+               "host name as registered (renames: C08).",
+    partial=["known-answer suppression is the code's `matches` (same letter case and cache-flush bit, D18 under C10)"],
+    assumptions=_RESP_ASSUME,
+)
 
 CONFIG["C04"] = dict(
     modules=["Mdns.Props.C04"],
